@@ -13,8 +13,17 @@
    proposed repair (suicideChange also records and restores the size); the code
    of /repo is [fx = false]. *)
 From Coq Require Import List NArith ZArith Bool.
-From GQ Require Import Lib.Key Lib.SMap.
+From GQ Require Import Lib.Key Lib.SMap Generated.C12Journal.
 Import ListNotations.
+
+(* Which variant of the code /repo contains, as found by the generator in the source text
+   (Generated/C12Journal.v): the model follows these flags, so the check keeps deciding the property
+   when one of the proposed repairs is applied.  Opaque for tactics (proofs hold for both values),
+   still evaluated by vm_compute. *)
+Definition code_fx : bool := gen_suicide_restores_size.        (* F8 repaired *)
+Definition code_rejournal : bool := gen_size_revert_rejournals. (* sizeChange.revert uses the journalling setter *)
+Definition code_fixd : bool := gen_evm_revert_restores_batch.   (* F9 repaired *)
+Global Opaque code_fx code_rejournal code_fixd.
 
 Definition word := N.
 
@@ -330,7 +339,7 @@ Definition undo_core (e : entry) (c : core) : option core :=
    j.entries = j.entries[:snapshot]). *)
 Definition undo_dirt (e : entry) (d : smap Z) : smap Z :=
   match e with
-  | ESize a _ => ddec a (dinc a d)
+  | ESize a _ => if code_rejournal then ddec a (dinc a d) else ddec a d
   | _ => match dirtied e with Some a => ddec a d | None => d end
   end.
 
@@ -583,8 +592,8 @@ Definition scase_ok (c : scase) : bool :=
   let '(_, (c0, d0, n0), h, fin) := c in
   let x0 := fresh c0 d0 n0 in
   wf_coreb c0 && wf_dirtb d0
-  && list_eqb out_eqb (run_outs false x0 (map fst h)) (map snd h)
-  && sdb_eqb (run false x0 (map fst h)) fin.
+  && list_eqb out_eqb (run_outs code_fx x0 (map fst h)) (map snd h)
+  && sdb_eqb (run code_fx x0 (map fst h)) fin.
 
 (* An EVM case: a transaction (top-level call tree) on a database holding one lockup record [k -> v];
    observed: |ETXCache|, |CoinbaseDeletedHashes|, |CoinbasesDeleted| after the call, and whether the
@@ -595,10 +604,10 @@ Inductive case :=
 
 Definition ecase_ok (k : key) (v : list N) (top : eframe) (n_etx n_hash n_del : N) (record_left : bool) : bool :=
   let st0 := mkEvm [] [] [] [] [(k, v)] in
-  let st1 := eexec false top st0 in
+  let st1 := eexec code_fixd top st0 in
   N.eqb (N.of_nat (length (e_etxs st1))) n_etx && N.eqb (N.of_nat (length (e_hashes st1))) n_hash
   && N.eqb (N.of_nat (length (e_deleted st1))) n_del
-  && Bool.eqb (match get k (evm_commit (evm_tx false top st0)) with Some _ => true | None => false end) record_left.
+  && Bool.eqb (match get k (evm_commit (evm_tx code_fixd top st0)) with Some _ => true | None => false end) record_left.
 
 Definition case_ok (c : case) : bool :=
   match c with
